@@ -386,6 +386,7 @@ func runCheck(id string, o checkOpts) int {
 		addCase(&reachW[i], "r")
 	}
 	validated := 0
+	syncOK := 0
 	var confirmed []*Witness
 	mismatches := 0
 	for pkg, cs := range cases {
@@ -403,7 +404,7 @@ func runCheck(id string, o checkOpts) int {
 		perKey := map[string]int{}
 		for _, c := range cs {
 			e := idx[c.ID]
-			if e.kind == "v" && (e.w.Kind == "sharedwrite" || e.w.Kind == "nondet") && perKey[raceKey(e.w)] < 2 && len(raceCases) < 48 {
+			if e.kind == "v" && (e.w.Kind == "sharedwrite" || e.w.Kind == "nondet" || e.w.Kind == "syncwrite") && perKey[raceKey(e.w)] < 2 && len(raceCases) < 48 {
 				perKey[raceKey(e.w)]++
 				raceCases = append(raceCases, c)
 			}
@@ -440,12 +441,18 @@ func runCheck(id string, o checkOpts) int {
 					good = oc.Outcome == "assert"
 				case "panic":
 					good = oc.Outcome == "panic"
-				case "sharedwrite", "nondet":
+				case "sharedwrite", "nondet", "syncwrite":
 					good = oc.Outcome == "race" || oc.Outcome == "assert"
 					if !raced[c.ID] && keyConfirmed[raceKey(e.w)] {
 						good = true
 						e.w.Replay = "not raced itself; same harness, ecosystem and monitor report as a witness confirmed under -race"
 					}
+				}
+				if !good && e.w.Kind == "syncwrite" {
+					// a write under a lock or through an atomic that the race detector accepts (or that
+					// was not raced): properly synchronised as far as this run can tell - not reported
+					syncOK++
+					continue
 				}
 				if good {
 					e.w.Confirm = true
@@ -564,26 +571,27 @@ func runCheck(id string, o checkOpts) int {
 			"z3 4.8.12 decides the Int/Bool queries correctly",
 		}, cd.Assume...),
 		Coverage: map[string]interface{}{
-			"states":                             tot.paths + tot.mergedPaths,
-			"transitions":                        tot.instrs,
-			"traces_validated_against_impl":      validated,
-			"samples":                            samples,
-			"explanation":                        cd.Title,
-			"rule":                               cd.Rule,
-			"bounds":                             cd.Bounds(o.tier),
-			"configs":                            len(cfgs),
-			"top_level_paths":                    tot.paths,
-			"merged_call_paths":                  tot.mergedPaths,
-			"assertions_discharged_by_solver":    tot.asserts,
-			"assertions_decided_syntactically":   tot.triv,
-			"queries":                            map[string]int{"total": tot.q, "unsat": tot.unsat, "sat": tot.sat, "unknown": tot.unk},
-			"solver":                             o.solver,
-			"cross_solver":                       crossEvidence(o),
-			"solver_s":                           tot.solverS,
-			"load_s":                             loadS,
-			"vacuous_configs":                    tot.vacuous,
-			"unexplored_configs":                 tot.inconclCfgs,
-			"engine_mismatches":                  mismatches,
+			"states":                           tot.paths + tot.mergedPaths,
+			"transitions":                      tot.instrs,
+			"traces_validated_against_impl":    validated,
+			"samples":                          samples,
+			"explanation":                      cd.Title,
+			"rule":                             cd.Rule,
+			"bounds":                           cd.Bounds(o.tier),
+			"configs":                          len(cfgs),
+			"top_level_paths":                  tot.paths,
+			"merged_call_paths":                tot.mergedPaths,
+			"assertions_discharged_by_solver":  tot.asserts,
+			"assertions_decided_syntactically": tot.triv,
+			"queries":                          map[string]int{"total": tot.q, "unsat": tot.unsat, "sat": tot.sat, "unknown": tot.unk},
+			"solver":                           o.solver,
+			"cross_solver":                     crossEvidence(o),
+			"solver_s":                         tot.solverS,
+			"load_s":                           loadS,
+			"vacuous_configs":                  tot.vacuous,
+			"unexplored_configs":               tot.inconclCfgs,
+			"engine_mismatches":                mismatches,
+			"synchronised_shared_writes_accepted_by_race_detector": syncOK,
 			"inconclusive":                       firstN(inconcl, 20),
 			"functions_encoded":                  topFuncs,
 			"functions_encoded_total":            len(funcs),
